@@ -288,4 +288,52 @@ Proof.
     destruct s; reflexivity.
 Qed.
 
+(* ---- any document the class reads: the object it yields is a fixed point of to_dict / from_dict *)
+Lemma parse_warning_wf : forall j w, parse_warning j = Some w -> wf_warning w.
+Proof.
+  intros j w H. unfold parse_warning in H.
+  destruct (bind (field "qualified_name" j) as_string); [|discriminate]. cbn [bind] in H.
+  destruct (bind (field "description" j) as_string); [|discriminate]. cbn [bind] in H.
+  destruct (field "data" j) as [x|]; [|discriminate]. cbn [bind] in H.
+  destruct x; try discriminate; injection H as <-; exact I.
+Qed.
+
+Lemma opt_all_forall : forall {A B} (f : A -> option B) (P : B -> Prop) (l : list A) (r : list B),
+  (forall a b, f a = Some b -> P b) -> opt_all (map f l) = Some r -> Forall P r.
+Proof.
+  intros A B f P l. induction l as [|a l IH]; intros r H Hr; cbn in Hr.
+  - injection Hr as <-. constructor.
+  - destruct (f a) as [b|] eqn:E; [|discriminate]. destruct (opt_all (map f l)) as [r'|] eqn:E'; [|discriminate].
+    injection Hr as <-. constructor; [apply (H a b E) | apply IH; [exact H | reflexivity]].
+Qed.
+
+Lemma parse_warnings_wf : forall j l, parse_warnings j = Some l -> Forall wf_warning l.
+Proof.
+  intros j l H. unfold parse_warnings in H. destruct j as [[]|]; try discriminate; try (injection H as <-; constructor).
+  exact (opt_all_forall parse_warning wf_warning _ _ parse_warning_wf H).
+Qed.
+
+Lemma from_doc_inv : forall c d s, from_doc cur leg c d = Some s ->
+  wf_state s /\ accepts (schema_of cur leg c) (ds_settings s) = true.
+Proof.
+  intros c d s H. unfold from_doc in H.
+  destruct (field "settings" d) as [st|]; [|discriminate]. cbn [bind] in H.
+  destruct (accepts (schema_of cur leg c) st) eqn:Eacc; cbn [negb] in H; [|discriminate].
+  destruct (bind (bind (field "submodels" d) as_obj) (fun l => opt_all (map parse_submodel l))); [|discriminate]. cbn [bind] in H.
+  destruct (field "info" d) as [info|]; [|discriminate]. cbn [bind] in H.
+  destruct (field "error" info); [|discriminate]. cbn [bind] in H.
+  destruct (bind (field "baseline_timezone" info) as_string); [|discriminate]. cbn [bind] in H.
+  destruct (parse_warnings (field "disqualification" info)) as [dq|] eqn:Edq; [|discriminate]. cbn [bind] in H.
+  destruct (parse_warnings (field "warnings" info)) as [ws|] eqn:Ews; [|discriminate]. cbn [bind] in H.
+  injection H as <-. cbn. split; [split; [exact (parse_warnings_wf _ _ Edq) | exact (parse_warnings_wf _ _ Ews)] | exact Eacc].
+Qed.
+
+Lemma reload_stable_l : forall c d s, dev_leaf_ok leg = true -> from_doc cur leg c d = Some s ->
+  exists s', from_doc cur leg c (to_doc c s) = Some s' /\ restores c s s'.
+Proof.
+  intros c d s Hok H. destruct (from_doc_inv c d s H) as [Hwf Hacc]. destruct c.
+  - exact (daily_roundtrip_l s Hwf Hacc).
+  - exact (billing_roundtrip_l s Hwf Hok Hacc).
+Qed.
+
 End RoundTrip.
